@@ -1038,6 +1038,9 @@ def c05(ctx: Ctx) -> None:
                       construct=construct_key(r.wrapper.qualname, 'no event wait'))
     # R5b: TimeoutError edge leads to HEAD
     head = [r.HEAD] if r.HEAD else []
+    # (going round again means reading the cache again: in a rotated loop the probe stands after the wait and the loop head
+    # after the probe - a path that reaches a probe has started its next round)
+    retry = head + [p_ for p_ in r.PROBE if p_.kind == 'load_sub']
     for w in set(shield_waits):
         te = [e for e in g.succ[w.id] if e.label == 'exc' and e.classes and 'TimeoutError' in e.classes
               and e.dst.kind == 'except']
@@ -1046,14 +1049,14 @@ def c05(ctx: Ctx) -> None:
                           'a timed-out waiter raises instead of re-checking',
                           construct=construct_key(r.wrapper.qualname, 'timeout unhandled'))
             continue
-        wp = must_pass(g, [], [g.exit, g.raise_exit], head, start_edges=te)
+        wp = must_pass(g, [], [g.exit, g.raise_exit], retry, start_edges=te)
         ctx.check('C05-R5', f'TimeoutError edge of {norm(w.ast)} -> retry head', _loc(g, w), wp is None and bool(head),
                   detail_ok='a timed-out waiter loops around and re-checks',
                   detail_bad='a timed-out waiter leaves the function',
                   witness=render(g, wp), construct=construct_key(r.wrapper.qualname, 'timeout no retry'))
         # R6: normal completion of the wait leads to HEAD, never to return
         ne = [e for e in g.succ[w.id] if e.label != 'exc']
-        wp = must_pass(g, [], [g.exit], head, start_edges=ne)
+        wp = must_pass(g, [], [g.exit], retry, start_edges=ne)
         ctx.check('C05-R6', f'woken waiter after {norm(w.ast)} re-reads the cache', _loc(g, w), wp is None and bool(head),
                   detail_ok='normal completion of the wait reaches the retry head',
                   detail_bad='a woken waiter returns without re-reading the cache',
@@ -1072,7 +1075,7 @@ def c05(ctx: Ctx) -> None:
     bridge_calls = [n for n in g.nodes if n.kind == 'call' and call_name(g, n.ast) == 'asyncio.run_coroutine_threadsafe']
     for b in bridge_calls:
         ee = [e for e in g.succ[b.id] if e.label == 'exc']
-        wp = must_pass(g, [], [g.exit, g.raise_exit], head, start_edges=ee)
+        wp = must_pass(g, [], [g.exit, g.raise_exit], retry, start_edges=ee)
         ctx.check('C05-R4', f'RuntimeError edge of {norm(b.ast)}', _loc(g, b), wp is None and bool(head) and bool(ee),
                   detail_ok='bridge failure (closed loop) loops around to recompute',
                   detail_bad='a closed computing loop makes the waiter fail instead of recomputing',
@@ -1259,6 +1262,7 @@ def c06(ctx: Ctx) -> None:
     rule_owner_only_unmark(ctx, r, 'C06-R3')
     # R6: bookkeeping failures of the cross-loop bridge never reach the caller
     head = [r.HEAD] if r.HEAD else []
+    head = head + [p_ for p_ in r.PROBE if p_.kind == 'load_sub']       # (a re-read of the cache is the start of the next round)
     bridge_calls = [n for n in g.nodes if n.kind == 'call' and call_name(g, n.ast) == 'asyncio.run_coroutine_threadsafe']
     for b in bridge_calls:
         ee = [e for e in g.succ[b.id] if e.label == 'exc']
